@@ -78,6 +78,12 @@ claimed["C19"]=dict(
    text="For every PAC, key and keytab: PAC processing succeeds only with the mandatory buffers and a server signature equal to the keyed checksum of its declared type (usage 17) over the to-be-signed copy, under a keytab key matching the ticket; the signature buffer decoder zeroes exactly the signature octets. Faithful reporting of the account attributes (NDR decoding) is not under contract and listed as not decided.",
    note="Trusted: et_cksum uninterpreted + MAC assumption, mstypes.Reader model, NDR buffer decoders, trusted frame of ProcessPACInfoBuffers.",
    design="4/C19")
+claimed["C12"]=dict(
+   technique="contract-based deductive verification: the network as arbitrary trusted stdlib contracts with ghost counters/records (connection attempts, transport uses, last error per transport); loop invariants on the KDC iteration, case-complete postcondition of sendToKDC over the udp_preference_limit branches; discharged by z3/cvc5 via gowp",
+   category="proof",
+   text="For every configuration, request and network behaviour: each transport tries every configured KDC before giving up and returns the first reply, TCP framing reads complete header and body, sendToKDC follows the udp_preference_limit order, surfaces a KRB-ERROR with its code and falls back after a KRB-ERROR only for response-too-big. Timing (deadlines) and the KDC's own behaviour are outside the contracts.",
+   note="Trusted: stdlib network contracts (arbitrary failures, short TCP reads), ASN.1 decoder in checkForKRBError.",
+   design="4/C12")
 hooks=subprocess.run("git -C /repo log --format='%H %s' | grep ' verif:' | awk '{print $1}'",shell=True,capture_output=True,text=True).stdout.split()
 m={"version":1,
  "setup_cmd":"./setup.sh",
